@@ -114,6 +114,11 @@ pub fn gen_case(rng: &mut Rng, n: usize, real: bool, class: u64) -> Case {
         8 => { let mut c = vec![z0; n + 1]; c[n] = Cmplx::new(1.0, 0.0); c[0] = if real { Cmplx::new(rng.logmag(1e-3, 1e3), 0.0) } else { match rng.below(4) { 0 => Cmplx::new(0.0, rng.logmag(1e-3, 1e3)), 1 => Cmplx::new(rng.logmag(1e-3, 1e3), 0.0), 2 => *rng.pick(&[Cmplx::new(0.0, 1.0), Cmplx::new(0.0, -1.0), Cmplx::new(-1.0, 0.0), Cmplx::new(0.0, -16.0)]), _ => Cmplx::new(rng.sym(), rng.sym()) } };
             if rng.chance(0.3) { let l = *rng.pick(&[2.0, -1.0, 0.5, 3.0]); c[n] = if real || rng.bool() { Cmplx::new(l, 0.0) } else { Cmplx::new(0.0, l) }; }
             Case { coeffs: c, real, class: "x^n+c", known_roots: None } }
+        10 => { // sparse, wide-scale: about half of the coefficients vanish, the others spread over six decades
+            let mut c: Vec<Cmplx> = (0..=n).map(|_| if rng.chance(0.45) { z0 } else { let s = rng.logpos(1e-3, 1e3); rc(rng, s) }).collect();
+            c[n] = nzlead(rng) * rng.logpos(1e-3, 1e3);
+            if fl::cabs(c[0]) == 0.0 && rng.bool() { c[0] = Cmplx::new(rng.logmag(1e-2, 1e2), 0.0); }
+            Case { coeffs: c, real, class: "sparse-wide-scale", known_roots: None } }
         _ => { let mut c = vec![z0; n + 1]; c[n] = Cmplx::new(1.0, 0.0); c[0] = Cmplx::new(rng.logmag(0.1, 10.0), 0.0); if n >= 2 { c[1] = Cmplx::new(rng.logmag(1e-8, 1e-2), 0.0); } Case { coeffs: c, real, class: "x^n+eps*x+c", known_roots: None } }
     }
 }
@@ -183,21 +188,22 @@ pub fn run(ctx: &Ctx) -> Report {
     // hook liveness
     let (_, log) = with_log(|| Polynomial::new(vec![1.0, -3.0, 0.5, 2.0, 1.0]).roots(true));
     let hook_live = log.calls > 0;
-    let units = 12u64 * 10 * 2; // degree x class x {real, complex}
+    let units = 12u64 * 11 * 2; // degree x class x {real, complex}
     let reps = ctx.vol(12_000, 600_000);
     let stats = par_run(ctx, TAG, units, |u, rng, st| {
-        let n = (u / 20) as usize + 1;
-        let class = (u / 2) % 10;
+        let n = (u / 22) as usize + 1;
+        let class = [0, 1, 2, 3, 4, 5, 6, 7, 8, 9, 10][((u / 2) % 11) as usize];
+        let class = if class == 9 { 11 } else { class }; // 11 = x^n+eps*x+c (the default arm)
         let real = u % 2 == 0;
         for k in 0..reps {
             let case = gen_case(rng, n, real, class);
             judge(st, &case, k % 2 == 0);
             if k % 16 == 0 { judge(st, &case, k % 2 == 1); }
         }
-        if u % 20 == 0 { for _ in 0..5 { rejection(st, rng); } }
+        if u % 22 == 0 { for _ in 0..5 { rejection(st, rng); } }
     });
     let mut rep = Report::new(stats,
-        "degrees 1..12 x {f64, Complex<f64>} x {refine, no refine} x 10 classes (random, coefficient scale ratio up to 1e6, vanishing constant term of multiplicity 1..n, vanishing inner coefficients, well-separated half-integer-lattice roots with exact coefficients, repeated roots, clusters 1e-3 apart, conjugate/purely imaginary pairs, x^n+c, x^n+eps*x+c); per call: n finite values, normwise backward error |p(z)|/(max|a_k| max(1,|z|)^n) in complex double-double <= tau(path), one-to-one matching for the well-separated class; degree-0 and empty polynomials must be rejected. Hook H5 classifies each call by whether a Laguerre iteration hit its cap. Every case non-trivial; distinct = distinct (type,refine,coefficients) hashes");
+        "degrees 1..12 x {f64, Complex<f64>} x {refine, no refine} x 11 classes (random, sparse wide-scale (half of the coefficients zero, the rest over six decades), coefficient scale ratio up to 1e6, vanishing constant term of multiplicity 1..n, vanishing inner coefficients, well-separated half-integer-lattice roots with exact coefficients, repeated roots, clusters 1e-3 apart, conjugate/purely imaginary pairs, x^n+c, x^n+eps*x+c); per call: n finite values, normwise backward error |p(z)|/(max|a_k| max(1,|z|)^n) in complex double-double <= tau(path), one-to-one matching for the well-separated class; degree-0 and empty polynomials must be rejected. Hook H5 classifies each call by whether a Laguerre iteration hit its cap. Every case non-trivial; distinct = distinct (type,refine,coefficients) hashes");
     rep.assumptions = vec![
         "thresholds: degree 1-2 64u; degree 3 1e-6 plain / 64u refined; degree>=4 1e-8 plain / 1e-12 refined".into(),
         "matching radius 16*tau*max|a|*max(1,|zeta|)^n/|p'(zeta)| (first-order forward error), capped at 0.2".into(),
